@@ -922,8 +922,11 @@ impl MqttState {
             .enumerate()
             .filter_map(|(i, p)| p.as_ref().map(|p| (i, p)))
             .collect();
+        // occupied slots in transmission order (the stamps themselves are history-dependent)
+        let mut order: Vec<usize> = outgoing.iter().map(|(i, _)| *i).collect();
+        order.sort_by_key(|i| self.outgoing_pub_seq[*i]);
         format!(
-            "ping={} cpc={} pkid={} puback={} inflight={}/{} pub={:?} rel={:?} inc={:?} col={:?} ev={:?} manual={}",
+            "ping={} cpc={} pkid={} puback={} inflight={}/{} pub={:?} order={order:?} rel={:?} inc={:?} col={:?} ev={:?} manual={}",
             self.await_pingresp,
             self.collision_ping_count,
             self.last_pkid,
